@@ -17,6 +17,7 @@ Mirrors (pinned tree + fixes/C09-*.patch):
 * `internal/driver/config.go`        `set`, `configure`, `isConfigurable`, `isBoolConfig`
 * `internal/driver/commands.go`      `stringToBool`, command table (names, hasParam)
 * `profile/index.go`                 `SampleIndexByName`;  `driver.go` `sampleFormat`/`valueExtractor`
+* `internal/symbolizer/symbolizer.go` option string of `Symbolize`, `demanglerModeToOptions`
 -/
 namespace PV.Crash
 open PV
@@ -446,6 +447,59 @@ def sampleValue (p : Prof) (si : Str) (mean : Bool) (values : List Int) : Outcom
     return (v, some d)
   return (v, none)
 
+/-! ## symbolizer option string (internal/symbolizer/symbolizer.go) -/
+
+structure SymOpts where
+  remote : Bool := true
+  loc : Bool := true
+  fast : Bool := false
+  force : Bool := false
+  demangler : Str := []
+  /-- number of "ignoring unrecognized symbolization option" messages -/
+  unknown : Nat := 0
+  deriving Repr, DecidableEq
+
+/-- the `demangle=…` option, "default", or an unrecognized option (a message is printed). -/
+def demangleOpt (st : SymOpts) (o : Str) : SymOpts :=
+  if stripPrefix (S "demangle=") o = S "full" ∨ stripPrefix (S "demangle=") o = S "none" ∨
+      stripPrefix (S "demangle=") o = S "templates"
+  then { st with demangler := stripPrefix (S "demangle=") o, force := true }
+  else if stripPrefix (S "demangle=") o = S "default" then st
+  else { st with unknown := st.unknown + 1 }
+
+/-- one `:`-separated option of `-symbolize=`; `none` = `return nil` ("none"/"no"). -/
+def symOptStep (st : SymOpts) (o : Str) : Option SymOpts :=
+  if o.isEmpty then some st
+  else if o = S "none" ∨ o = S "no" then none
+  else if o = S "local" then some { st with remote := false, loc := true }
+  else if o = S "fastlocal" then some { st with remote := false, loc := true, fast := true }
+  else if o = S "remote" then some { st with remote := true, loc := false }
+  else if o = S "force" then some { st with force := true }
+  else some (demangleOpt st o)
+
+def symOptFold : SymOpts → List Str → Option SymOpts
+  | st, [] => some st
+  | st, o :: rest => match symOptStep st o with
+    | none => none
+    | some st' => symOptFold st' rest
+
+/-- `demanglerModeToOptions`: number of demangler options, or the explicit panic. -/
+def demanglerModeToOptions (m : Str) : Outcome Nat :=
+  if m = [] then .ok 3
+  else if m = S "templates" then .ok 2
+  else if m = S "full" then .ok 1
+  else if m = S "none" then .ok 0
+  else .panic "symbolizer.go demanglerModeToOptions: unknown demanglerMode"
+
+/-- `Symbolizer.Symbolize` as far as the option string decides (`lower` = `strings.ToLower`):
+`none` = symbolization skipped, else the switches and the number of demangler options. -/
+def symbolizeMode (lower : Str → Str) (mode : Str) : Outcome (Option (SymOpts × Nat)) :=
+  match symOptFold {} (splitAll 58 (lower mode)) with
+  | none => .ok none
+  | some st => do
+    let n ← demanglerModeToOptions st.demangler
+    return some (st, n)
+
 /-! ## parseCommandLine (interactive.go) -/
 
 /-- command table: name, hasParam (hand-copied from commands.go; tied by correspondence). -/
@@ -458,8 +512,10 @@ def commands : List (Str × Bool) := [
 
 def lookupCmd (tbl : List (Str × Bool)) (name : Str) : Option Bool := (tbl.find? (·.1 = name)).map (·.2)
 
-/-- keys of `configHelp`: field names and choice names. -/
-def hasConfigHelp (tbl : List Field) (name : Str) : Bool := isConfigurable tbl name
+/-- keys of `configHelp`: field names and choice names, except the two group names `sort` and
+`granularity` (they have no help entry of their own). -/
+def hasConfigHelp (tbl : List Field) (name : Str) : Bool :=
+  isConfigurable tbl name && name ≠ S "sort" && name ≠ S "granularity"
 
 def catRegex (a b : Str) : Str := if !a.isEmpty && !b.isEmpty then a ++ [124] ++ b else a ++ b
 
@@ -588,17 +644,18 @@ structure Sess where
 /-- `shortcuts.expand` with `profileShortcuts(p)`. -/
 def expand (e : Env) (p : Prof) (input : Str) : List Str :=
   let input := e.trimSpace input
-  if input = [58] then [S "focus=", S "ignore=", S "hide=", S "tagfocus=", S "tagignore="]
-  else
-    -- later sample types overwrite earlier map entries: search from the end
-    let hit := p.sampleTypes.reverse.findSome? (fun t =>
-      if input = t then some [S "sample_index=" ++ t]
-      else if input = S "total_" ++ t then some [S "mean=0", S "sample_index=" ++ t]
-      else if input = S "mean_" ++ t then some [S "mean=1", S "sample_index=" ++ t]
-      else none)
-    match hit with
-    | some r => r
-    | none => [input]
+  -- profileShortcuts adds the sample-type entries to the map that already holds ":"; later sample
+  -- types overwrite earlier entries (and ":"), so search from the end and try ":" last
+  let hit := p.sampleTypes.reverse.findSome? (fun t =>
+    if input = t then some [S "sample_index=" ++ t]
+    else if input = S "total_" ++ t then some [S "mean=0", S "sample_index=" ++ t]
+    else if input = S "mean_" ++ t then some [S "mean=1", S "sample_index=" ++ t]
+    else none)
+  match hit with
+  | some r => r
+  | none =>
+    if input = [58] then [S "focus=", S "ignore=", S "hide=", S "tagfocus=", S "tagignore="]
+    else [input]
 
 /-- the `st[len(st)-1]` of `printCurrentOptions` (taken when `sample_index` is unset). -/
 def printCurrentOptions (s : Sess) : Outcome Unit := do
